@@ -437,6 +437,14 @@ func (s *Sim) userActions() []Action {
 				}
 			}
 		}
+		if cfg.StrategyEdits && def.Strategy.Canary != nil {
+			// the user removes the canary strategy (also in the middle of a canary) or puts it back
+			if e.Spec.Strategy.Canary != nil {
+				add("user.canary-strategy "+def.Key()+" -", func() { e.Spec.Strategy.Canary = nil; s.Store.ForceUpdate(e) })
+			} else {
+				add("user.canary-strategy "+def.Key()+" +", func() { e.Spec.Strategy.Canary = def.Strategy.Canary.Object(); s.Store.ForceUpdate(e) })
+			}
+		}
 		if cfg.StrategyEdits && e.Spec.Strategy.Canary != nil && e.Spec.Strategy.Canary.Replicas != nil {
 			for _, v := range []string{"1", "2", "3"} {
 				v := v
